@@ -266,58 +266,86 @@ end
 def namedName (name : Str) (targs : TList) : Str :=
   name ++ (if targs.isNil then [] else '[' :: argStrs targs ++ [']'])
 
+/-! ## code variants -/
+
+/-- which variant of `structHash` is modelled.  `current` = the pinned tree (tags and embedded field
+    names are NOT written); `tags` = with `fixes/C07-1.diff` (a non-empty tag adds a line `\t<hex>`);
+    `embNames` = with `fixes/C07-2.diff` (an embedded field is written as `-Name` instead of `-`). -/
+structure Cfg where
+  tags : Bool
+  embNames : Bool
+  deriving DecidableEq, Repr
+
+def Cfg.current : Cfg := ⟨false, false⟩
+def Cfg.fixed : Cfg := ⟨true, true⟩
+
+def hexDigitC (n : Nat) : Char := if n < 10 then Char.ofNat (48 + n) else Char.ofNat (87 + n)
+
+/-- `%x` of a byte string -/
+def hexStr (bs : List UInt8) : Str := bs.flatMap fun b => [hexDigitC (b.toNat / 16), hexDigitC (b.toNat % 16)]
+
+/-- UTF-8 encoding of a text -/
+def utf8 (cs : Str) : List UInt8 := (String.ofList cs).toByteArray.data.toList
+
+/-- the extra line a non-empty tag contributes to the struct hash (variant `tags` only) -/
+def tagLine (cfg : Cfg) (tag : Str) : Str :=
+  if cfg.tags && tag != [] then '\t' :: hexStr (utf8 tag) ++ ['\n'] else []
+
+/-- how an embedded field's name is written -/
+def embMark (cfg : Cfg) (name : Str) : Str := if cfg.embNames then '-' :: name else ['-']
+
 /-! ## TypeName -/
 
 mutual
 /-- `(*Builder).TypeName` (first result). `hc` is the text-level hash (`base64url(sha256(text))`).
     `pub = true` computes `TypeName(PublicType(t))` (used by `tuple`): a closure struct is then
     named by its `$f` field's func type. -/
-def nameC (hc : Str → Str) (pub : Bool) : GoType → Str
+def nameC (cfg : Cfg) (hc : Str → Str) (pub : Bool) : GoType → Str
   | .basic k => llgoPrefix ++ basicAbiName k
-  | .pointer e => '*' :: nameC hc false e
-  | .slice e => '[' :: ']' :: nameC hc false e
-  | .array n e => '[' :: dec n ++ ']' :: nameC hc false e
-  | .map k v => litMapOpen ++ nameC hc false k ++ ']' :: nameC hc false v
-  | .chan d e => chanDirStr d ++ ' ' :: nameC hc false e
-  | .alias _ a => nameC hc pub a
+  | .pointer e => '*' :: nameC cfg hc false e
+  | .slice e => '[' :: ']' :: nameC cfg hc false e
+  | .array n e => '[' :: dec n ++ ']' :: nameC cfg hc false e
+  | .map k v => litMapOpen ++ nameC cfg hc false k ++ ']' :: nameC cfg hc false v
+  | .chan d e => chanDirStr d ++ ' ' :: nameC cfg hc false e
+  | .alias _ a => nameC cfg hc pub a
   | .named _ pkg name sc targs => llgoPrefix ++ fullName pkg (namedName name targs ++ scopeStr pkg sc)
   | .func ps rs v =>
     -- FuncName: "_llgo_func$" + b64(funcHash)
     litFunc ++
       hc (litFuncHdr ++ dec ps.length ++ ' ' :: dec rs.length ++ ' ' :: boolStr v ++ '\n' ::
-          (tupleC hc ps ++ tupleC hc rs))
+          (tupleC cfg hc ps ++ tupleC cfg hc rs))
   | .iface ms =>
     if ms.isNil then litAny
     else
-      let h := hc (litIfaceHdr ++ dec ms.length ++ '\n' :: methodsC hc ms)
+      let h := hc (litIfaceHdr ++ dec ms.length ++ '\n' :: methodsC cfg hc ms)
       let pkg := firstPkgM ms
       if pkg = [] then litIface ++ h else pkg ++ (litIfaceP ++ h)
   | .struct fs =>
-    if pub && isClosure fs then field0C hc fs
+    if pub && isClosure fs then field0C cfg hc fs
     else
-      let h := hc (litStructHdr ++ dec fs.length ++ '\n' :: fieldsC hc fs)
+      let h := hc (litStructHdr ++ dec fs.length ++ '\n' :: fieldsC cfg hc fs)
       let pkg := firstPkgF fs
       if isClosure fs then litClosure ++ h
       else if pkg = [] then litStruct ++ h
       else pkg ++ (litStructP ++ h)
 /-- name of the first field's type (`PublicType` of a closure struct) -/
-def field0C (hc : Str → Str) : FList → Str
+def field0C (cfg : Cfg) (hc : Str → Str) : FList → Str
   | .nil => []
-  | .cons _ _ _ _ t _ => nameC hc false t
+  | .cons _ _ _ _ t _ => nameC cfg hc false t
 /-- `(*Builder).tuple`: one line `TypeName(PublicType(t))` per parameter -/
-def tupleC (hc : Str → Str) : TList → Str
+def tupleC (cfg : Cfg) (hc : Str → Str) : TList → Str
   | .nil => []
-  | .cons t r => nameC hc true t ++ '\n' :: tupleC hc r
+  | .cons t r => nameC cfg hc true t ++ '\n' :: tupleC cfg hc r
 /-- the per-field lines of `structHash`: `name type\n`, the name being `-` for an embedded field.
-    THE TAG IS NOT WRITTEN. -/
-def fieldsC (hc : Str → Str) : FList → Str
+    In the `current` variant THE TAG IS NOT WRITTEN and an embedded field's name is dropped. -/
+def fieldsC (cfg : Cfg) (hc : Str → Str) : FList → Str
   | .nil => []
-  | .cons name _ emb _ t r =>
-    (if emb then ['-'] else name) ++ ' ' :: nameC hc false t ++ '\n' :: fieldsC hc r
+  | .cons name _ emb tag t r =>
+    (if emb then embMark cfg name else name) ++ ' ' :: nameC cfg hc false t ++ '\n' :: (tagLine cfg tag ++ fieldsC cfg hc r)
 /-- the per-method lines of `interfaceHash`: `name functype\n` -/
-def methodsC (hc : Str → Str) : MList → Str
+def methodsC (cfg : Cfg) (hc : Str → Str) : MList → Str
   | .nil => []
-  | .cons name _ sig r => name ++ ' ' :: nameC hc false sig ++ '\n' :: methodsC hc r
+  | .cons name _ sig r => name ++ ' ' :: nameC cfg hc false sig ++ '\n' :: methodsC cfg hc r
 end
 
 /-! ## which terms the model covers -/
@@ -367,11 +395,11 @@ end
 
 /-! ## byte-level interface -/
 
-/-- UTF-8 encoding of a text -/
-def utf8 (cs : Str) : List UInt8 := (String.ofList cs).toByteArray.data.toList
-
 /-- `TypeName` with the byte-level hash (`hash bytes = base64url(sha256 bytes)`) -/
-def typeName (hash : List UInt8 → String) (t : GoType) : String :=
-  String.ofList (nameC (fun cs => (hash (utf8 cs)).toList) false t)
+def typeNameCfg (cfg : Cfg) (hash : List UInt8 → String) (t : GoType) : String :=
+  String.ofList (nameC cfg (fun cs => (hash (utf8 cs)).toList) false t)
+
+/-- `TypeName` of the pinned tree -/
+def typeName (hash : List UInt8 → String) (t : GoType) : String := typeNameCfg .current hash t
 
 end LlgoVerif.Types
